@@ -280,6 +280,18 @@ def oracle(case, impl, spec):
     return None
 
 
+def spec_line(case):
+    """what must come back: the values that were written (same syntax as the reader part of a transcript)"""
+    try:
+        out = []
+        for i in map(tok_info, parse_case(case)[4]):
+            if i[0] == 'v':
+                out.append('i%d' % i[2] if i[1] == 'i' else 'f%016x' % i[2] if i[1] == 'f' else 's' + i[2].hex())
+        return 'R' + ','.join(out)
+    except Exception:
+        return 'BADCASE'
+
+
 def corr(case, impl, model):
     if impl == model:
         return None
@@ -377,12 +389,28 @@ def run(ctx):
         'real libc by the same correspondence; Float clause: strtod modelled as round-to-nearest-even',
         'oracle is independent of the model: values compared in Python (Float with exact rational arithmetic)']
     ctx.coq()
-    drv = ctx.build_driver('RoundTrip')
+    model_broken = None
+    try:
+        drv = ctx.build_driver('RoundTrip')
+    except vlib.ModelBuildError as e:
+        # the model can no longer be regenerated from the source (a Generated.v pattern failed):
+        # still look for a concrete failing input with the oracle alone
+        drv, model_broken = None, str(e)
+        ctx.notes.append('model build error: %s' % model_broken[-600:])
     h = ctx.build_harness('roundtrip.c')
     run_impl = lambda cs: ctx.run_lines(h, cs, args=[ctx.tmp])[1]
-    run_model = lambda cs: ctx.run_lines(drv, cs, args=['model'])[1]
-    run_spec = lambda cs: ctx.run_lines(drv, cs, args=['spec'])[1]
+    run_model = (lambda cs: ctx.run_lines(drv, cs, args=['model'])[1]) if drv else None
+    run_spec = lambda cs: [spec_line(c) for c in cs]
     d = vlib.Differential(ctx, 'roundtrip', run_impl, run_model, run_spec, oracle, corr, nontrivial, split, join)
+    d_report = d.report
+
+    def report(extra=None):
+        d_report(extra)
+        if model_broken and not any(not nf for _, nf in ctx.violations):
+            ctx.violation('model', {'kind': 'the Coq model no longer builds against coq/Generated.v regenerated from the source',
+                                    'detail': model_broken[-3000:], 'theorem_or_file': 'Extract_RoundTrip.v / Generated.v',
+                                    'search': 'oracle clean on %d cases' % d.ncases}, no_failing_input=True)
+    d.report = report
     rp = os.environ.get('VERIF_REPLAY')
     if rp:
         r = json.load(open(rp))
